@@ -72,15 +72,17 @@ func caseRand(g groupSpec) *rand.Rand {
 }
 
 type runner struct {
-	rep      *vfutil.Report
-	bases    map[string]*base
-	outcomes map[string]map[string]int // ep -> outcome -> n
-	executed map[string]map[string]int // ep -> class -> n
-	na       int
-	sampled  map[string]bool
-	errs     map[string]map[string]int // ep -> error text -> n (diagnostics: how deep the cases get)
-	remote   map[string]*os.File
-	rendered int
+	rep               *vfutil.Report
+	bases             map[string]*base
+	outcomes          map[string]map[string]int // ep -> outcome -> n
+	executed          map[string]map[string]int // ep -> class -> n
+	na                int
+	sampled           map[string]bool
+	errs              map[string]map[string]int // ep -> error text -> n (diagnostics: how deep the cases get)
+	remote            map[string]*os.File
+	rendered          int
+	allocFired        map[string]bool
+	escalationSkipped int
 	// current receiver
 	recvKey     string
 	recv        any
@@ -97,7 +99,8 @@ func (r *runner) dropReceiver() {
 
 func newRunner(rep *vfutil.Report) *runner {
 	return &runner{rep: rep, bases: map[string]*base{}, outcomes: map[string]map[string]int{},
-		executed: map[string]map[string]int{}, sampled: map[string]bool{}, errs: map[string]map[string]int{}}
+		executed: map[string]map[string]int{}, sampled: map[string]bool{}, errs: map[string]map[string]int{},
+		allocFired: map[string]bool{}}
 }
 
 func fieldOf(c caseSpec) string {
@@ -105,7 +108,8 @@ func fieldOf(c caseSpec) string {
 		// whole-message and framing operators: the operator names the place
 		return c.Op
 	}
-	return goName(c.Path[len(c.Path)-1])
+	name, _ := stepOf(c.Path[len(c.Path)-1])
+	return goName(name)
 }
 
 // sweepPrefixes expands the "prefix-sweep" operator: every byte prefix (sampled when the message
@@ -210,6 +214,13 @@ func (r *runner) runCase(ep entryPoint, g groupSpec, b *base, c caseSpec) error 
 	if rem, ok := ep.(remoteEP); ok {
 		return r.writeRemote(rem, g, b, c, data)
 	}
+	// once the allocation guard has fired on a field, more extreme sizes on the same field are not
+	// tried: they could exhaust memory for real (a Go fatal error cannot be recovered)
+	fk := g.String() + "|" + strings.Join(c.Path, ".")
+	if r.allocFired[fk] && magnitude(c.Op) > 0 {
+		r.escalationSkipped++
+		return nil
+	}
 	rk := g.Ep + "|" + g.V + "|" + g.St
 	if r.recv == nil || r.recvKey != rk {
 		r.dropReceiver()
@@ -266,6 +277,9 @@ func (r *runner) runCase(ep entryPoint, g groupSpec, b *base, c caseSpec) error 
 	if !r.sampled[sk] && (res.Outcome == "accepted" || res.Outcome == "rejected") && len(c.Path) > 0 {
 		r.sampled[sk] = true
 		r.rep.Sample(map[string]any{"group": g.String(), "case": c.String(), "outcome": res.Outcome, "err": res.Err, "bytes": len(data)})
+	}
+	if res.Outcome == "alloc" {
+		r.allocFired[fk] = true
 	}
 	switch res.Outcome {
 	case "panic", "hang", "alloc":
@@ -346,5 +360,6 @@ func (r *runner) finish() {
 	r.rep.SetExtra("outcomes", r.outcomes)
 	r.rep.SetExtra("executed", r.executed)
 	r.rep.SetExtra("not_applicable", r.na)
+	r.rep.SetExtra("skipped_after_alloc_violation", r.escalationSkipped)
 	r.rep.SetExtra("rejections", r.errs)
 }
